@@ -221,7 +221,21 @@ fn decode_value<R: ciborium_io::Read>(decoder: &mut Decoder<R>) -> Result<Value,
 where
   ciborium_ll::Error<R::Error>: Into<DecodeError>,
 {
+  let start = decoder.offset();
   let header = decoder.pull().map_err(Into::into)?;
+  decode_item(decoder, header, start)
+}
+
+/// Decode the data item whose head `header` was pulled from `decoder` at byte
+/// offset `start`.
+fn decode_item<R: ciborium_io::Read>(
+  decoder: &mut Decoder<R>,
+  header: Header,
+  start: usize,
+) -> Result<Value, DecodeError>
+where
+  ciborium_ll::Error<R::Error>: Into<DecodeError>,
+{
   match header {
     Header::Positive(v) => Ok(Value::Integer(Integer::from(v))),
     Header::Negative(v) => {
@@ -241,6 +255,9 @@ where
       }
     }
     Header::Float(f) => Ok(Value::Float(f)),
+    // RFC 8949 Section 3.3: a simple value below 32 has only the one-byte
+    // encoding; the two-byte forms 0xf8 0x00..=0x1f are not well-formed
+    Header::Simple(s) if s < 32 && decoder.offset() - start > 1 => Err(DecodeError::Syntax(start)),
     Header::Simple(s) => match s {
       simple::FALSE => Ok(Value::Bool(false)),
       simple::TRUE => Ok(Value::Bool(true)),
@@ -378,13 +395,13 @@ where
       // Indefinite-length array
       let mut items = Vec::new();
       loop {
-        // Peek at the next header to check for break
+        // Pull the next header to check for break
+        let start = decoder.offset();
         let h = decoder.pull().map_err(Into::into)?;
         if h == Header::Break {
           break;
         }
-        decoder.push(h);
-        items.push(decode_value(decoder)?);
+        items.push(decode_item(decoder, h, start)?);
       }
       Ok(items)
     }
@@ -412,12 +429,12 @@ where
       // Indefinite-length map
       let mut entries = Vec::new();
       loop {
+        let start = decoder.offset();
         let h = decoder.pull().map_err(Into::into)?;
         if h == Header::Break {
           break;
         }
-        decoder.push(h);
-        let key = decode_value(decoder)?;
+        let key = decode_item(decoder, h, start)?;
         let val = decode_value(decoder)?;
         entries.push((key, val));
       }
